@@ -181,18 +181,34 @@ Proof.
   exact (run_prog_ext _ _ model_prog_is_source cs).
 Qed.
 
-Corollary construct_is_source : forall d : defn, outcome_val (construct d) = construct_with src_prog d.
+(* ---- the head: BADS.__init__ up to the call + the head of _bounds_check_ ---- *)
+Ltac head_eq prog :=
+  intros [[x|] [l|] [u|] [p|] [q|]];
+  unfold assemble, head_of_defn, prog, odefault;
+  lazy beta iota zeta delta [run_head hcond hget hset hval is_none negb andb orb d_x0 d_lb d_ub d_plb d_pub
+                             hx hl hu hp hq hD head_view forallb];
+  try reflexivity;
+  repeat match goal with
+         | |- context [if Nat.eqb ?a ?b then _ else _] => destruct (Nat.eqb a b)
+         end; reflexivity.
+
+Lemma assemble_is_model_head : forall d : defn, head_view (assemble d) = run_head model_head (head_of_defn d).
+Proof. head_eq model_head. Qed.
+
+Theorem assemble_is_source : forall d : defn, head_view (assemble d) = run_head src_head (head_of_defn d).
+Proof. head_eq src_head. Qed.
+
+Corollary construct_is_source : forall d : defn, outcome_val (construct d) = construct_with2 src_head src_prog d.
 Proof.
-  intros d. unfold construct, construct_with. destruct (assemble d) as [r|c|cs]; try reflexivity.
-  fold (src_check cs). rewrite <- check_is_source.
+  intros d. unfold construct, construct_with2. rewrite <- assemble_is_source.
+  destruct (assemble d) as [r|c|cs]; try reflexivity.
+  cbn [head_view]. fold (src_check cs). rewrite <- check_is_source.
   destruct (check_coords cs) as [r|cs']; reflexivity.
 Qed.
 
-(* ---- head, tail and caller of _bounds_check_ ---- *)
-Theorem assembly_is_source :
-  model_arg_order = src_arg_order /\ model_arg_order = src_return_order /\
-  model_shape_checked = src_shape_checked /\ model_bc_defaults = src_bc_defaults /\
-  model_init_defaults = src_init_defaults.
+(* ---- caller and tail of _bounds_check_ ---- *)
+Theorem call_is_source :
+  model_arg_order = src_arg_order /\ model_arg_order = src_return_order /\ model_post_check = src_post_check.
 Proof. repeat split; reflexivity. Qed.
 
 (* ---- a concrete row: D = 3, x0 ON an upper bound, an unbounded coordinate with x0 outside its plausible box,
